@@ -77,6 +77,18 @@ CHECKS.update({
         "Trusted: the reference matcher (literal/anchored tests). Regexes beyond literals and '^x' are outside the alphabet.",
         "DESIGN.md 3.4, 4 C19",
     ),
+    "C13": (
+        "exhaustive sweep of all 10^6 sub-second values plus a structured numeric grid of instants/offsets/representations/durations, integer and rational oracle",
+        "All 10^6 microsecond values of one second are pushed through both the datetime and the ISO-string path of Event and compared with the integer millisecond floor; anchor instants 1970..2100 incl. float binade edges x 6 UTC offsets x 4 representations x constructor/setter; a duration grid (int, timedelta at us granularity up to 30 d and 2^41 us, floats) compared with exact rationals; JSON form validated against event.json (draft-4, format checker) and round-tripped for a data catalogue and id kinds.",
+        "Trusted: Python datetime/Fraction arithmetic, jsonschema. Exhaustive over the grid, not over the 10^15-instant space (see DESIGN 5).",
+        "DESIGN.md 3.4, 4 C13",
+    ),
+    "C20": (
+        "bounded-exhaustive enumeration of (default, user) TOML document pairs over a path universe, recursive-overlay oracle on real files",
+        "Every default document (each of 4 paths nested up to 3 tables absent/int/array; thorough also string) x every user document (per path absent/same/other int/float equal in value/string, thorough also bool/array; x 5 structural variants: scalar-over-table, table-over-scalar, user-only keys) is rendered in three TOML styles, written to a real config file and loaded by load_config_toml; result compared type-strictly with a recursive overlay; file bytes compared; first-run file written and reloaded twice for every default document.",
+        "Trusted: tomlkit as TOML reader; the 10-line overlay. Arrays of tables and multi-line values are outside the grammar. One open known finding (inline-table defaults + user sub-table raises).",
+        "DESIGN.md 3.4, 4 C20",
+    ),
 })
 
 NOT_YET = {}
